@@ -63,6 +63,14 @@ type dpCall struct {
 // dpHangs counts registry calls that did not return: after a few of them the verdict is in, the remaining behaviours are skipped
 var dpHangs atomic.Int32
 
+// dpType maps the spec's type names to event types: "NUL" stands for the type "\x00" (a byte no field value is barred from)
+func dpType(t string) string {
+	if t == "NUL" {
+		return "\x00"
+	}
+	return t
+}
+
 func runDispatch(b *dpBeh) (problems []string) {
 	if dpHangs.Load() >= 3 {
 		return nil
@@ -122,13 +130,13 @@ func runDispatch(b *dpBeh) (problems []string) {
 				inCallback = true
 				step, _ := strconv.Atoi(e.Data)
 				calls = append(calls, dpCall{idx, step})
-				if e.Type != b.Ops[step].Typ {
+				if e.Type != dpType(b.Ops[step].Typ) {
 					problems = append(problems, fmt.Sprintf("callback %d got an event of type %q for step %d (type %q)", idx, e.Type, step, b.Ops[step].Typ))
 				}
 				inCallback = false
 				mu.Unlock()
 			}
-			typ := op.Typ
+			typ := dpType(op.Typ)
 			if !guarded("hang in subscribe", func() {
 				switch {
 				case op.Kind == "all":
@@ -154,7 +162,7 @@ func runDispatch(b *dpBeh) (problems []string) {
 		case "event":
 			var sb strings.Builder
 			if op.Typ != "" {
-				sb.WriteString("event: " + op.Typ + "\n")
+				sb.WriteString("event: " + dpType(op.Typ) + "\n")
 			}
 			sb.WriteString("data: " + strconv.Itoa(k) + "\n\n")
 			select {
